@@ -1278,6 +1278,17 @@ def mk_index(b, i):
         for ent in b[1]:
             if len(ent) == 2 and ent[0] == i and all(len(x) == 2 for x in b[1]):
                 return ent[1]
+        # entries written later under a condition override the earlier ones when that condition holds
+        if is_const(i) and all(isinstance(x, tuple) and ((len(x) == 2 and x[0] != 'when') or (len(x) == 4 and x[0] == 'when')) for x in b[1]) \
+                and all(is_const(x[0] if len(x) == 2 else x[2]) for x in b[1]):
+            val = None
+            for x in b[1]:
+                if len(x) == 2 and x[0] == i:
+                    val = x[1]
+                elif len(x) == 4 and x[2] == i and val is not None:
+                    val = mk_cond(pc_term(norm_pc(tuple(x[1]))), x[3], val)
+            if val is not None:
+                return val
         # {True: a, False: b}[test]
         if len(b[1]) == 2 and all(len(x) == 2 for x in b[1]) and {b[1][0][0], b[1][1][0]} == {TRUE, FALSE}:
             d = dict(b[1])
